@@ -13,7 +13,7 @@ class Stop(Exception):
     pass
 
 
-def schedule(idx, syscall_valid=1, syscall_no=1):
+def schedule(idx, syscall_valid=1, syscall_no=1, trace=0, prints=None):
     """Interpret hextb.cpp's run() on its own scalars with the DUT outputs chosen adversarially; returns
     (list of (time, i_clk, i_rst) at each eval(), list of (time, i_clk, i_rst) at each handleSyscall())."""
     f = idx.func('run')
@@ -21,6 +21,19 @@ def schedule(idx, syscall_valid=1, syscall_no=1):
     ctx = Obj('VerilatedContext', {'time': const(64, False, 0)}, 'contextp')
     top = Obj('Vhex_pkg', {'i_clk': const(8, False, 0), 'i_rst': const(8, False, 0),
                            'o_syscall_valid': const(8, False, syscall_valid), 'o_syscall': const(8, False, syscall_no)}, 'top')
+    # internal DUT state that the testbench may look at (tracing): unknown values, recognisable by their source tag
+    dut = lambda w, nm: ivinterp.IV(w, False, 0, (1 << w) - 1, None, 'dut:' + nm)
+    top.fields['hex'] = Obj('Vhex_pkg_hex', {
+        'u_processor': Obj('Vhex_pkg_processor', {'pc_q': dut(32, 'pc_q'), 'instr': dut(8, 'instr'), 'areg_q': dut(32, 'areg_q'),
+                                                  'breg_q': dut(32, 'breg_q'), 'oreg_q': dut(32, 'oreg_q')}, 'u_processor'),
+        'u_memory': Obj('Vhex_pkg_memory', {}, 'u_memory')}, 'hex')
+
+    def has_dut(v, depth=0):
+        if isinstance(v, ivinterp.IV):
+            return isinstance(v.src, str) and v.src.startswith('dut:')
+        if isinstance(v, (tuple, list)) and depth < 6:
+            return any(has_dut(x, depth + 1) for x in v)
+        return False
 
     def hooks(I, n, kind, name, did, obj, args, env):
         t = (dqt(obj) + ' ' + qt(obj)) if obj is not None else ''
@@ -47,6 +60,14 @@ def schedule(idx, syscall_valid=1, syscall_no=1):
                 if name == 'final':
                     return None
                 raise AnalysisBroken('unmodelled DUT method %s' % name)
+        if n['kind'] == 'CXXOperatorCallExpr' and name == 'operator<<' and prints is not None and len(args) == 2:
+            a = I.expr(args[0], env)
+            try:
+                b = I.expr(args[1], env)
+            except (AnalysisBroken, NeedSplit):
+                b = None
+            prints.append((ctx.fields['time'].lo, top.fields['i_clk'].lo, top.fields['i_rst'].lo, has_dut(b) or b is None))
+            return a
         if kind == 'function' and name == 'handleSyscall':
             syscalls.append((ctx.fields['time'].lo, top.fields['i_clk'].lo, top.fields['i_rst'].lo))
             return None
@@ -62,7 +83,7 @@ def schedule(idx, syscall_valid=1, syscall_no=1):
         elif 'Vhex_pkg' in t:
             argv.append(top)
         elif 'bool' in t:
-            argv.append(const(1, False, 0))
+            argv.append(const(1, False, trace))
         else:
             argv.append(const(64, False, 0))
     try:
@@ -131,6 +152,21 @@ def run(rep, tier):
     rep.rule('R4', 'the image is loaded into the DUT memory before the clock starts', floor=1)
     rep.add('R4', 'main:load-before-run', order[:2] == ['load', 'run'], pos(m.node) + ' main (hextb.cpp)', 'call order %s' % order, nontrivial=False)
     rule_shim_defined(rep, idx)
+    # R7: with -t nothing that depends on the power-on state is printed
+    rep.rule('R7', 'tracing (-t) prints the internal state of the design only once reset has been released: a line printed from pc / instr '
+             'while the design is still in (or has not yet seen) reset shows the randomised power-on values, so stdout would differ from '
+             'seed to seed', floor=1)
+    prints = []
+    try:
+        ev2, _ = schedule(idx, trace=1, prints=prints)
+        rel = next((e[0] for e in ev2 if e[2] == 0 and any(x[2] == 1 for x in ev2 if x[0] < e[0])), None)
+        early = [p_ for p_ in prints if p_[3] and (p_[2] == 1 or rel is None or p_[0] < rel)]
+        rep.add('R7', 'trace:no-dut-state-printed-in-reset', not early, where,
+                ('design state is printed at (time, clk, rst) = %s, before reset is released at time %s' % ([p_[:3] for p_ in early[:4]], rel)) if early else
+                '%d traced prints of design state, the first at time %s (reset released at %s)' % (
+                    len([p_ for p_ in prints if p_[3]]), next((p_[0] for p_ in prints if p_[3]), None), rel))
+    except (AnalysisBroken, NeedSplit) as e:
+        rep.undecided('R7', 'trace:no-dut-state-printed-in-reset', 'the traced run could not be interpreted: %s' % e, where)
     from .. import report as _report
     from . import c06
     rep.rule('R6', '"the loaded image is intact": the testbench loader copies the whole zero-padded image to word 0 of the DUT memory, so no '
